@@ -22,6 +22,15 @@ m = {
  "notes": "All verdicts come from TLC; the C++ drivers only drive the implementation and record. See DESIGN.md.",
  "not_applicable": NOT_APPLICABLE
 }
+import glob
+have = {c["property_id"] for c in CHECKS}
+for f in sorted(glob.glob(os.path.join(V, "checks", "*.manifest.json"))):
+    c = json.load(open(f))
+    if c["property_id"] not in have:
+        CHECKS.append(c); have.add(c["property_id"])
+CHECKS.sort(key=lambda c: c["property_id"])
+m["engines"][0]["serves_properties"] = [c["property_id"] for c in CHECKS]
+m["not_applicable"] = [n for n in NOT_APPLICABLE if n["property_id"] not in have]
 for c in CHECKS:
     pid = c["property_id"]
     m["checks"].append({
